@@ -983,6 +983,7 @@ class Facts:
 
         def base(p):
             return re.sub(r"#\d+$", "", p)
+        new_from = self._hoist_into_conversions(known)
         cand = {}
         for p, f in self.fns.items():
             if f.crate not in known or f.kind == "Closure" or f.j.get("coroutine") or base(p) in known[f.crate]:
@@ -993,7 +994,7 @@ class Facts:
                 tr = p.split(" as ", 1)[1].rsplit(">::", 1)[0]
                 tr_crate = tr.split("::", 1)[0].lstrip("<")
                 known_traits = {k.split(" as ", 1)[1].rsplit(">::", 1)[0] for k in known[f.crate] if k.startswith("<") and " as " in k}
-                if tr_crate != f.crate or tr in known_traits:
+                if (tr_crate != f.crate or tr in known_traits) and p not in new_from:
                     continue
             if f.j.get("exported") or (f.j.get("pub") and f.j.get("reachable")):
                 continue                      # new public API: a root of its own
@@ -1079,6 +1080,92 @@ class Facts:
             elif p in self.fns and p in inl:
                 self.absorbed[p] = self.fns.pop(p)
         self.fn_items_as_values = fnrefs
+
+    def _hoist_into_conversions(self, known):
+        """`fn f(x: impl Into<X>) { let x = x.into(); .. }` called with a payload type T is `f(X::from(payload))`: the
+        conversion is moved to the call sites (where the concrete `From` impl is known) and f takes an X again. New `From`
+        impls between crate-local types are conversion helpers like any other extracted function; their paths are returned so
+        that the absorption below inlines them. Explicit `.into()` calls with concrete types are resolved the same way."""
+        new_from = set()
+        FROM = "<%s as core::convert::From<%s>>::from"
+        for p, f in self.fns.items():
+            if f.crate in known and p.startswith("<") and " as core::convert::From<" in p and p.endswith(">::from") and p not in known[f.crate]:
+                self_ty = p[1:].split(" as ", 1)[0]
+                if self_ty.split("::", 1)[0] == f.crate:
+                    new_from.add(p)
+        if not new_from:
+            return new_from
+        hoist = {}                                   # fn path -> (param local, generic index, X)
+        for p, f in self.fns.items():
+            if f.crate not in known or f.kind == "Closure":
+                continue
+            gens = f.j.get("generics", [])
+            for pr in f.j.get("predicates", []):
+                m = re.fullmatch(r"(.+): core::convert::Into<(.+)>", pr)
+                if not m or m.group(1) not in gens:
+                    continue
+                G, X = m.group(1), m.group(2)
+                params = [i for i in range(1, f.arg_count + 1) if f.locals[i] == G]
+                if len(params) != 1:
+                    continue
+                # the only thing done with the parameter: moved (perhaps through one temporary) into Into::into
+                uses = [(bi, t) for bi, blk in enumerate(f.blocks) for t in [blk["term"]] if t["k"] == "call" and t.get("decl") == "core::convert::Into::into"
+                        and len(t["args"]) == 1 and t["args"][0]["k"] in ("copy", "move") and G in f.locals[t["args"][0]["l"]]]
+                if len(uses) == 1 and not f.blocks[uses[0][0]]["cleanup"] and uses[0][1].get("target") is not None:
+                    hoist[p] = (params[0], gens.index(G), X, uses[0][0])
+        changed = {}
+        for p, (pl, gi, X, ub) in hoist.items():
+            f = self.fns[p]
+            j = json.loads(json.dumps(f.j))
+            t = j["blocks"][ub]["term"]
+            j["blocks"][ub]["stmts"].append({"k": "assign", "lhs": t["dest"], "rv": {"k": "use", "op": t["args"][0]}, "span": t.get("span", "")})
+            j["blocks"][ub]["term"] = {"k": "goto", "target": t["target"], "span": t.get("span", "")}
+            G = j["generics"][gi]
+            j["locals"] = [X if ty == G else ty for ty in j["locals"]]
+            j["inputs"] = [X if ty == G else ty for ty in j.get("inputs", [])]
+            changed[p] = j
+        for p, f in self.fns.items():
+            j = changed.get(p)
+            for bi in range(len(f.blocks)):
+                t = (j or f.j)["blocks"][bi]["term"]
+                if t["k"] != "call":
+                    continue
+                conv = None
+                if t["callee"] in hoist and len(t["args"]) == self.fns[t["callee"]].arg_count:
+                    pl, gi, X, _ = hoist[t["callee"]]
+                    targs = t.get("targs", [])
+                    T = targs[gi] if gi < len(targs) else None
+                    if T and T != X and FROM % (X, T) in self.fns:
+                        conv = (pl - 1, X, T)
+                elif t.get("decl") == "core::convert::Into::into" and len(t.get("targs", [])) >= 2 and FROM % (t["targs"][1], t["targs"][0]) in new_from:
+                    if j is None:
+                        j = changed[p] = json.loads(json.dumps(f.j))
+                    t = j["blocks"][bi]["term"]
+                    t["callee"], t["ck"], t["decl"] = FROM % (t["targs"][1], t["targs"][0]), "item", "core::convert::From::from"
+                    continue
+                if conv is None:
+                    continue
+                if j is None:
+                    j = changed[p] = json.loads(json.dumps(f.j))
+                t = j["blocks"][bi]["term"]
+                ai, X, T = conv
+                nl = len(j["locals"])
+                j["locals"].append(X)
+                nb = len(j["blocks"])
+                # bb_i: tmp = X::from(arg) -> bb_new ; bb_new: the original call with tmp
+                call2 = dict(t)
+                call2["args"] = list(t["args"])
+                call2["args"][ai] = {"k": "move", "l": nl, "p": []}
+                if "arg_tys" in call2:
+                    call2["arg_tys"] = list(call2["arg_tys"])
+                    call2["arg_tys"][ai] = X
+                j["blocks"].append({"cleanup": j["blocks"][bi]["cleanup"], "stmts": [], "term": call2})
+                j["blocks"][bi]["term"] = {"k": "call", "callee": FROM % (X, T), "decl": "core::convert::From::from", "ck": "item",
+                                           "args": [t["args"][ai]], "arg_tys": [T], "targs": [], "dest": {"l": nl, "p": []}, "target": nb,
+                                           "unwind": t.get("unwind", "continue"), "span": t.get("span", "")}
+        for p, j in changed.items():
+            self.fns[p] = Fn(j, self.fns[p].crate)
+        return new_from
 
     def n_bodies(self):
         return len(self.fns)
@@ -2366,6 +2453,19 @@ def inline_calls(facts, fn, should_inline, depth=2):
     return nf
 
 
+def _capture_source(facts, cpath, name):
+    """(enclosing Fn, operand) captured under `name` where closure cpath is built."""
+    for g in facts.fns.values():
+        for blk in g.blocks:
+            for st in blk["stmts"]:
+                if st["k"] == "assign" and st["rv"]["k"] == "agg" and st["rv"].get("closure") == cpath:
+                    rv = st["rv"]
+                    for i, n in enumerate(rv.get("fields", [])):
+                        if n == name and i < len(rv["ops"]) and rv["ops"][i]["k"] in ("copy", "move"):
+                            return g, rv["ops"][i]
+    return None
+
+
 def inline_closure_calls(facts, fn, rounds=3):
     """`f()` where f is a closure built in this very function (typically after a helper that takes `impl FnOnce` was inlined):
     the closure's body is spliced in, its environment bound to the closure value and its parameters to the argument tuple."""
@@ -2381,8 +2481,22 @@ def inline_closure_calls(facts, fn, rounds=3):
                 continue
             # which closure is being called?
             a, cpath, by_ref = t["args"][0], None, False
-            for _hop in range(6):
-                sd = cur.single_def(a["l"]) if a["k"] in ("copy", "move") and not a["p"] else None
+            host, env_ref = cur, None
+            for _hop in range(10):
+                if a["k"] not in ("copy", "move"):
+                    break
+                if a["p"]:
+                    # a captured variable of the closure being analysed (`dispatch(cmd)` where `dispatch` is a closure built by
+                    # the enclosing function and handed in by reference): continue where this closure was built
+                    names = [q for q in a["p"] if q != "*"]
+                    up = _capture_source(facts, cur.path, names[0][1:]) if host is cur and cur.kind == "Closure" and a["l"] == 1 and len(names) == 1 else None
+                    if up is None:
+                        break
+                    host, a = up
+                    continue
+                if host is cur and env_ref is None and re.match(r"&(mut )?\{closure@", cur.locals[a["l"]]):
+                    env_ref = a["l"]
+                sd = host.single_def(a["l"])
                 if not sd or sd[1] == "term" or sd[2]["k"] != "assign":
                     break
                 rv = sd[2]["rv"]
@@ -2392,8 +2506,13 @@ def inline_closure_calls(facts, fn, rounds=3):
                 if rv["k"] == "use":
                     a = rv["op"]
                 elif rv["k"] == "ref" and not rv["place"]["p"]:
-                    by_ref = True
+                    if host is cur:
+                        by_ref = True
                     a = {"k": "copy", "l": rv["place"]["l"], "p": []}
+                elif rv["k"] == "ref" and rv["place"]["p"] == ["*"]:
+                    a = {"k": "copy", "l": rv["place"]["l"], "p": []}           # reborrow
+                elif rv["k"] == "ref":
+                    a = {"k": "copy", "l": rv["place"]["l"], "p": list(rv["place"]["p"])}
                 else:
                     break
             g = facts.fns.get(cpath) if cpath else None
@@ -2448,7 +2567,11 @@ def inline_closure_calls(facts, fn, rounds=3):
             sp = t.get("span", "")
             env_ty = g.locals[1] if len(g.locals) > 1 else ""
             arg0 = t["args"][0]
-            if env_ty.startswith("&") and not by_ref and not cur.locals[arg0["l"]].startswith("&"):
+            if env_ty.startswith("&") and env_ref is not None and host is not cur:
+                # the closure lives in the enclosing function; what this body holds is a reference to it
+                blocks[bi]["stmts"].append({"k": "assign", "lhs": {"l": loff + 1, "p": []}, "span": sp,
+                                            "rv": {"k": "use", "op": {"k": "copy", "l": env_ref, "p": []}}})
+            elif env_ty.startswith("&") and not by_ref and not cur.locals[arg0["l"]].startswith("&"):
                 # the body takes the environment by reference, the call hands the closure over by value
                 blocks[bi]["stmts"].append({"k": "assign", "lhs": {"l": loff + 1, "p": []}, "span": sp,
                                             "rv": {"k": "ref", "mut": env_ty.startswith("&mut"), "place": {"l": arg0["l"], "p": []}}})
